@@ -12,6 +12,7 @@ from ..lang.ast import (
 )
 from ..schema import Schema
 from .collect_fields import collect_fields_untyped
+from .untyped_value_from_ast import untyped_value_from_ast
 
 
 class _UnboundedDepth(Exception):
@@ -131,11 +132,23 @@ class MaxDepthValidationRule:
             ):
                 continue
 
+            # Variables which were not provided take their declared default.
+            op_variables = dict(variables)
+            for var_def in op.variable_definitions or []:
+                var_name = var_def.variable.name.value
+                if (
+                    var_name not in op_variables
+                    and var_def.default_value is not None
+                ):
+                    op_variables[var_name] = untyped_value_from_ast(
+                        var_def.default_value
+                    )
+
             try:
                 depth = _selections_depth(
                     op.selection_set.selections,
                     fragments,
-                    variables,
+                    op_variables,
                     bound=bound,
                 )
             except _UnboundedDepth:
